@@ -15,6 +15,7 @@ import (
 	"verif/internal/drive"
 	"verif/internal/fakeredis"
 	"verif/internal/fullsync"
+	"verif/internal/ref"
 
 	"github.com/mgtv-tech/redis-GunYu/config"
 	"github.com/mgtv-tech/redis-GunYu/pkg/redis/checkpoint"
@@ -452,33 +453,35 @@ func (c loopCfg) filterConfig() config.FilterConfig {
 	return config.FilterConfig{}
 }
 
-// filteredOut is the oracle's own reading of the configured filters (single class per command:
-// the workload never mixes kept and dropped keys in one command).
-func (c loopCfg) filteredOut(cmd string, args [][]byte) bool {
-	keys := keysOf(cmd, args)
-	white, black, bcmd := false, false, false
+// refFilter is the oracle's own reading of the configured filters: the reference rules of
+// internal/ref (a transcription of the filter statement, independent of pkg/filter).
+func (c loopCfg) refFilter() *ref.Filter {
+	fc := ref.FilterConfig{Bookkeeping: []string{config.CheckpointKey, config.NamespacePrefixKey}}
 	switch c.Filter {
 	case "prefix-whitelist":
-		white = true
+		fc.PrefixWhite = []string{whitePrefix}
 	case "prefix-blacklist":
-		black = true
+		fc.PrefixBlack = []string{blackPrefix}
 	case "cmd-blacklist":
-		bcmd = true
+		fc.CmdBlacklist = []string{blackCmd}
 	case "whitelist+cmd-blacklist":
-		white, bcmd = true, true
+		fc.PrefixWhite, fc.CmdBlacklist = []string{whitePrefix}, []string{blackCmd}
 	}
-	if bcmd && strings.EqualFold(cmd, blackCmd) {
-		return true
-	}
-	for _, k := range keys {
-		if white && !strings.HasPrefix(string(k), whitePrefix) {
-			return true
+	return ref.NewFilter(fc)
+}
+
+// project: what the peer must execute for a propagated command — the command itself, its
+// restriction to the accepted keys (DEL / UNLINK / MSET), or nothing.
+func project(f *ref.Filter, cmd string, args [][]byte) (want [][]byte, forwarded bool) {
+	out, fwd, judged := f.Command(0, cmd, args)
+	if !judged {
+		// outside the reference key table: first argument is the key
+		if len(args) > 0 && f.KeyRejected(args[0]) {
+			return nil, false
 		}
-		if black && strings.HasPrefix(string(k), blackPrefix) {
-			return true
-		}
+		return args, true
 	}
-	return false
+	return out, fwd
 }
 
 var openMu sync.Mutex
